@@ -179,6 +179,8 @@ struct QueueState {
     batch_start: Option<Instant>,
     /// Whether a flush is currently in progress
     flush_in_progress: bool,
+    /// Thread that owns the current flush: the elected leader, or whoever took the batch
+    leader: Option<std::thread::ThreadId>,
 }
 
 impl QueueState {
@@ -188,6 +190,7 @@ impl QueueState {
             next_batch_id: 1,
             batch_start: None,
             flush_in_progress: false,
+            leader: None,
         }
     }
 }
@@ -316,6 +319,7 @@ impl GroupCommitQueue {
 
             if should_flush {
                 state.flush_in_progress = true;
+                state.leader = Some(std::thread::current().id());
                 drop(state);
                 return Ok(());
             } else {
@@ -361,6 +365,18 @@ impl GroupCommitQueue {
             return None;
         }
 
+        // Only the owner of the flush may take the batch. A committer whose own commit was
+        // already completed by an earlier leader must not grab the batch of the leader that
+        // was just elected (that leader would find nothing, return Ok and acknowledge a
+        // commit that has not been written yet), nor start a second concurrent flush.
+        let me = std::thread::current().id();
+        match state.leader {
+            Some(leader) if leader != me => return None,
+            None if state.flush_in_progress => return None,
+            _ => {}
+        }
+        state.leader = Some(me);
+
         state.flush_in_progress = true;
         let pending: Vec<_> = state.pending.drain(..).collect();
         state.batch_start = None;
@@ -383,6 +399,7 @@ impl GroupCommitQueue {
         {
             let mut state = self.state.lock();
             state.flush_in_progress = false;
+            state.leader = None;
         }
         self.flush_complete.notify_all();
     }
@@ -396,6 +413,7 @@ impl GroupCommitQueue {
         {
             let mut state = self.state.lock();
             state.flush_in_progress = false;
+            state.leader = None;
         }
         self.flush_complete.notify_all();
     }
